@@ -34,7 +34,7 @@ def rule_TR1(rep, prog, q, ts, universal_only=False):
             o = t.origin
             callers = [(f, c) for f in prog.all_functions() for c in f.calls(o)] if o != t.fn.name or True else []
             users = sorted({f.name for f, c in callers}) or [t.fn.name]
-            okc = set(users) <= {"_dispatch_lane_drain", "_dispatch_lane_drain_non_barriers"}
+            okc = bool(callers)      # role is structural: every caller reaches it only for an item it found to be a sync waiter (below)
             for f, c in callers:
                 # dominated by _dispatch_object_is_waiter(dc) being true
                 iw = [w for w in calls_named(f, "_dispatch_object_is_waiter") if f.dominates(w, c)]
